@@ -89,10 +89,11 @@ Tree(sh, isIndex, stale, pattern, ovf) ==
          ents |-> [i \in 1..n |->
                     [rowid |-> IF isIndex THEN IntVal(0) ELSE IntVal(2 * i),
                      rec |-> IF isIndex THEN <<IntVal(KeyOf(pattern, i)), IntVal(i)>> ELSE <<>>,
+                     mtype |-> "",
                      ov |-> IF ovf /\ i % 2 = 1 THEN <<1000 + i>> ELSE IF ovf /\ i % 4 = 0 THEN <<1000 + i, 2000 + i>> ELSE <<>>]]]
 
 Base0 == [op |-> "", root |-> 2, rowid |-> IntVal(0), key |-> <<>>, to |-> <<>>, stop |-> 0, fail |-> 0,
-          pro |-> "none", lockfail |-> FALSE, nested |-> "", troot |-> 0, pkcols |-> <<>>, pkdef |-> <<>>, nolock |-> FALSE]
+          pro |-> "none", lockfail |-> FALSE, nested |-> "", troot |-> 0, pkcols |-> <<>>, pkdef |-> <<>>, nolock |-> FALSE, mtype |-> ""]
 
 K1(v) == <<[v |-> IntVal(v), coll |-> "binary", desc |-> FALSE]>>
 K2(v, w) == <<[v |-> IntVal(v), coll |-> "binary", desc |-> FALSE], [v |-> IntVal(w), coll |-> "binary", desc |-> FALSE]>>
